@@ -651,6 +651,21 @@ def c11_task(task):
                 stats['direct-fail'] += 1
                 if len(viol) < 8:
                     viol.append(dict(what='PUSH of a %d-byte value is rejected (%s); the documented encoding exists' % (L, outc), source=src[:100]))
+    # comptime blocks whose value is EMPTY, in operand positions: the block stands for the value symbol x (the empty value), it does not vanish
+    for src, wantx in (('push1 d0 ~ { } true', '030001'), ('push1 ~ { } true', '030001'), ('push1 d0 ~ { # nothing # } true', '030001'),
+                       ('push1 ~! { push1 d0 x } true', '030001'), ('add_ints ~ { } true', '0e0001'), ('push ~ { } x01', None),
+                       ('push ~ { } true', None), ('if { push1 d0 ~ { } } true', '2b00020300' + '01'), ('push1 d0 ~ { } push1 d1 ~ { true }', '0300030101')):
+        stats['empty-comptime'] += 1
+        try:
+            got, outc = P.compile_script(src), 'ok'
+        except BaseException as e:
+            got, outc = None, type(e).__name__
+        if (got.hex() if got is not None else None) != wantx:
+            stats['direct-fail'] += 1
+            if len(viol) < 8:
+                viol.append(dict(what='a comptime block with an empty value in an operand position: %s' % ('must be rejected, compiled' if wantx is None else 'does not compile to the documented encoding (%s)' % outc),
+                                 source=src, expected=wantx, got=(got.hex() if got is not None else None)))
+        src_model(src, got, outc, 'empty-comptime')
     # sources that cannot be encoded must be rejected, not silently mis-assembled
     for src in MALFORMED:
         stats['malformed'] += 1
